@@ -738,6 +738,97 @@ func c09ViolationText(c *Ctx, ep *EmittedPkg, rid string) {
 		}
 		return true
 	})
+	// the validator's error is part of the description: follow the raw value into the emitted validators (parameters that
+	// receive it, transitively) and apply the same test to every formatted error they build
+	tainted := map[types.Object]bool{}
+	for o := range raw {
+		tainted[o] = true
+	}
+	vbad := ""
+	var vpos token.Pos
+	nFormatted := 0
+	for round := 0; round < 6; round++ {
+		grew := false
+		for _, efd := range ep.Funcs {
+			if efd.Body == nil {
+				continue
+			}
+			ast.Inspect(efd.Body, func(nd ast.Node) bool {
+				call, ok := nd.(*ast.CallExpr)
+				if !ok {
+					return true
+				}
+				cal := ep.CalleeOf(call)
+				if cal == nil {
+					return true
+				}
+				if cal.Pkg() == ep.Pkg {
+					cd := ep.Funcs[ep.RecName(cal)]
+					if cd == nil || cd.Type.Params == nil {
+						return true
+					}
+					var params []*ast.Ident
+					for _, f := range cd.Type.Params.List {
+						params = append(params, f.Names...)
+					}
+					for i, a := range call.Args {
+						if id, ok := ast.Unparen(a).(*ast.Ident); ok && tainted[ep.Info.ObjectOf(id)] && i < len(params) {
+							if po := ep.Info.ObjectOf(params[i]); po != nil && !tainted[po] {
+								tainted[po] = true
+								grew = true
+							}
+						}
+					}
+				}
+				return true
+			})
+		}
+		if !grew {
+			break
+		}
+	}
+	for _, efd := range ep.Funcs {
+		if efd.Body == nil {
+			continue
+		}
+		ast.Inspect(efd.Body, func(nd ast.Node) bool {
+			call, ok := nd.(*ast.CallExpr)
+			if !ok || len(call.Args) < 2 {
+				return true
+			}
+			cal := ep.CalleeOf(call)
+			if cal == nil || cal.Pkg() == nil || cal.Pkg().Path() != "fmt" || !(cal.Name() == "Errorf" || cal.Name() == "Sprintf") {
+				return true
+			}
+			format := ""
+			if tv, ok := ep.Info.Types[call.Args[0]]; ok && tv.Value != nil {
+				format = tv.Value.ExactString()
+			}
+			verbs := regexp.MustCompile(`%[-+# 0-9.]*[a-zA-Z]`).FindAllString(format, -1)
+			for i, a := range call.Args[1:] {
+				id, ok := ast.Unparen(a).(*ast.Ident)
+				if !ok || !tainted[ep.Info.ObjectOf(id)] {
+					continue
+				}
+				nFormatted++
+				verb := ""
+				if i < len(verbs) {
+					verb = verbs[i]
+				}
+				if !strings.HasSuffix(verb, "q") && vbad == "" {
+					vbad = fmt.Sprintf("%s: %s printed with %q", efd.Name.Name, id.Name, verb)
+					vpos = call.Pos()
+				}
+			}
+			return true
+		})
+	}
+	vp := ep.GenPos(fd.Pos())
+	if vbad != "" {
+		vp = ep.GenPos(vpos)
+	}
+	r.CheckD(vbad == "", rid, "errors built by the emitted header validators do not embed the raw header value (only under %q)", vp,
+		"an emitted header validator formats the raw header value into its error ("+vbad+"), and validateHeaders copies that error into FieldViolation.Description: a value that is not valid UTF-8 makes the marshalling of the ValidationError fail, and the client gets a bare text 400 without the violation list", map[string]any{"tainted_values": len(tainted), "formatted_uses": nFormatted})
 	pos := ep.GenPos(fd.Pos())
 	if bad != "" {
 		pos = ep.GenPos(bpos)
